@@ -29,7 +29,7 @@ PARAMS = {  # property -> (quick: len, cuts), (thorough: len, cuts)
 }
 
 
-EXTRA_ENC = {"C01": ["only reads changed the output"], "C14": ["source ranges"]}
+EXTRA_ENC = {"C01": ["only reads changed the output"], "C14": ["source ranges"], "C16": ["tag_name()", "attribute value is not"]}
 
 
 def sync_tree(src, dst, items=("src", "Cargo.toml", "Cargo.lock", "build.rs", "README.md", "benches")):
